@@ -18,6 +18,7 @@ Lemma kit_maxadd_lawful : kit_lawful kit_maxadd va_pending. Proof. exact maxadd_
 Lemma kit_sumadd_lawful : kit_lawful kit_sumadd sa_pending. Proof. exact sumadd_lawful. Qed.
 Lemma kit_concat_lawful : kit_lawful kit_concat cc_pending. Proof. exact concat_lawful. Qed.
 Lemma kit_affine_lawful : kit_lawful kit_affine af_pending. Proof. exact affine_lawful. Qed.
+Lemma kit_flip_lawful : kit_lawful kit_flip fl_pending. Proof. exact flip_lawful. Qed.
 
 (** Combinator of two lawful kits (whose [update] is the trait default) is lawful: hence every nesting *)
 Lemma kit_comb_lawful {T1 T2 M V1 V2} (a : kit T1 M V1) (b : kit T2 M V2) PA PB :
